@@ -49,6 +49,7 @@ func c03SCIONWorld(r *simcore.Run) any {
 	if tp.Bool(2, 3, "faulty") {
 		plan.Drop = uint64(tp.Range(0, 150, "drop"))
 		plan.Dup = uint64(tp.Range(0, 150, "dup"))
+		plan.DupSameInstant = uint64(tp.Intn(500, "dupsame"))
 		if tp.Bool(1, 2, "long") {
 			plan.LongDelay = uint64(tp.Range(10, 150, "longp"))
 			plan.LongDelayMax = time.Duration(tp.Range(int64(time.Millisecond), int64(time.Second), "longmax"))
